@@ -19,7 +19,7 @@ from renormalizer.tn.tree import TTNO, TTNS
 from renormalizer.tn.treebase import BasisTree
 
 sys.path.insert(0, __file__.rsplit("/", 1)[0])
-from c08_run import dense_from_terms, model_spin, model_holstein, total_qn  # noqa: E402
+from c08_run import dense_from_terms, model_spin, model_holstein, total_qn, extra_terms  # noqa: E402
 
 
 def make_tree(basis_list, topo, rng):
@@ -204,7 +204,10 @@ def run_case(case):
             model = model_holstein(case["nmol"], case["nbas"], rng, case.get("qn", True))
         basis_list = list(model.basis)
         tree = make_tree(basis_list, case["topo"], rng)
-        hd = dense_from_terms(model)
+        terms = list(model.ham_terms)
+        if case.get("hvar") == "terms":          # the operator handed to the optimiser is not the model's own Hamiltonian
+            terms = terms + extra_terms(model, rng)
+        hd = dense_from_terms(model, terms)
         tot = total_qn(model)
         if case.get("sector") == "rand":
             qn = [abs(int(x)) for x in tot[int(rng.integers(len(tot)))].tolist()]
@@ -224,7 +227,7 @@ def run_case(case):
         out["sector_dim"] = int(sector.sum())
         out["hilbert_dim"] = int(len(hd))
         out["qn"] = qn
-        ttno = TTNO(tree, model.ham_terms)
+        ttno = TTNO(tree, terms)
         out["ttno_dense_err"] = float(np.abs(np.asarray(ttno.todense(basis_list)) - hd).max())
         ttns = TTNS.random(tree, qntot=qn if len(qn) > 1 else qn[0], m_max=case.get("m_init", 8))
         ttns.optimize_config.algo = case.get("algo", "davidson")
